@@ -429,6 +429,24 @@ class Reach:
         self._rel[key] = edges
         return edges
 
+    def arg_terms(self, bb, i):
+        """Path-sensitive alternatives of argument i of the call ending block bb (a phi of the arms of an earlier
+        `match` is resolved to the arms that survive the assumption)."""
+        c = self.it.calls.get(bb)
+        if c is None or i >= len(c.args):
+            return set()
+        v = c.args[i].val
+        if v[0] != 'phi' and v != ('top',):
+            return {v}
+        op = self.body.blocks[bb]['term']['args'][i]
+        if op['k'] in ('copy', 'move') and all(e['k'] == 'deref' for e in op['place']['proj']):
+            ts = self.reaching_terms(op['place']['local'], bb)
+            out = set()
+            for t in ts:
+                out |= set(t[1]) if t[0] == 'phi' else {t}
+            return out
+        return set(v[1]) if v[0] == 'phi' else {v}
+
     def reaching_terms(self, local, at_bb, depth=0):
         """Value terms of the definitions of `local` that reach the end of the statements of block at_bb on the paths
         that survive the assumption (path-sensitive provenance).  Copies/moves of plain locals are followed."""
@@ -485,6 +503,9 @@ class Reach:
             _l, val, rv = self.it.assign_vals[(bb, si)]
             if rv is not None and rv['k'] == 'use' and rv['op']['k'] in ('copy', 'move') and not rv['op']['place']['proj']:
                 terms |= self.reaching_terms(rv['op']['place']['local'], bb, depth + 1)
+            elif rv is not None and rv['k'] == 'ref' and rv['place']['proj'] and all(e['k'] == 'deref' for e in rv['place']['proj']):
+                # a reborrow `&*r`: references are transparent, follow r
+                terms |= self.reaching_terms(rv['place']['local'], bb, depth + 1)
             elif rv is not None and rv['k'] == 'use' and rv['op']['k'] in ('copy', 'move') and \
                     all(e['k'] in ('field', 'downcast') and e.get('owner') != 'closure' for e in rv['op']['place']['proj']):
                 # a projection of a local (tuple / struct destructuring): project every reaching value of the base
